@@ -82,8 +82,30 @@ pub fn set_eid_request(rng: &mut Rng, own: u8) -> Vec<u8> {
     ctrl_request(own & 0x7F, s, iid, false, 0x01, &[rng.below(2) as u8, eid])
 }
 
-/// Instantiate a letter as a concrete operation for the endpoint described by `m`.
+/// Instantiate a letter as a concrete operation for the endpoint described by `m`. One packet in four
+/// gets arbitrary transport flags (SOM/EOM/sequence/TO/tag) - and, for control requests, sometimes the
+/// reserved bit - with a recomputed PEC: the decoder is not supposed to look at them, a state machine
+/// tracking message assembly would.
 pub fn instantiate(l: Letter, rng: &mut Rng, m: &Model) -> Op {
+    let op = instantiate_plain(l, rng, m);
+    match op {
+        Op::Process(mut p) if p.len() > 12 && crate::corpus::pec_ok(&p) && rng.chance(1, 4) => {
+            p[7] = match rng.below(4) {
+                0 => 0x80 | (rng.byte() & 0x3F),
+                1 => rng.byte() & 0x3F,
+                _ => rng.byte(),
+            };
+            if p[8] == 0 && rng.chance(1, 4) {
+                p[9] |= 0x20;
+            }
+            fix_pec(&mut p);
+            Op::Process(p)
+        }
+        o => o,
+    }
+}
+
+fn instantiate_plain(l: Letter, rng: &mut Rng, m: &Model) -> Op {
     let own = m.cfg.addr & 0x7F;
     let n = m.cfg.vendors.len();
     match l {
@@ -164,7 +186,7 @@ pub fn instantiate(l: Letter, rng: &mut Rng, m: &Model) -> Op {
         }
         Letter::DecodeOnly => {
             let inner = *rng.pick(&[Letter::SetEid, Letter::SetEid, Letter::GetEid, Letter::Query, Letter::ResponsePacket, Letter::VendorMsg, Letter::Corrupted, Letter::Truncated]);
-            match instantiate(inner, rng, m) {
+            match instantiate_plain(inner, rng, m) {
                 Op::Process(p) => Op::Decode(p),
                 o => o,
             }
@@ -176,7 +198,7 @@ pub fn instantiate(l: Letter, rng: &mut Rng, m: &Model) -> Op {
                 Op::AccResp(rng.byte())
             }
         }
-        Letter::GetLength => Op::GetLength(match instantiate(Letter::SetEid, rng, m) {
+        Letter::GetLength => Op::GetLength(match instantiate_plain(Letter::SetEid, rng, m) {
             Op::Process(p) => p,
             _ => vec![0, 0x0F, 9],
         }),
@@ -187,6 +209,31 @@ pub fn instantiate(l: Letter, rng: &mut Rng, m: &Model) -> Op {
         }
         Letter::OtherRequest => {
             let (s, iid) = src_and_iid(rng);
+            if rng.chance(1, 3) {
+                // a request of an unsupported (or any) command whose data echoes the endpoint's own
+                // identity: its UUID (15/16/17 bytes), its type list, one of its vendor fields
+                let data: Vec<u8> = match rng.below(4) {
+                    0 | 1 => {
+                        let mut d = m.uuid.to_vec();
+                        match rng.below(3) {
+                            0 => d.truncate(15),
+                            1 => {}
+                            _ => d.push(if rng.chance(1, 2) { 0 } else { rng.byte() }),
+                        }
+                        d
+                    }
+                    2 => m.cfg.types.clone(),
+                    _ => {
+                        if n > 0 {
+                            m.vendor_field(rng.below(n as u64) as usize)
+                        } else {
+                            vec![]
+                        }
+                    }
+                };
+                let cmd = if rng.chance(1, 2) { 0x10 } else { rng.range(0x07, 0x20) as u8 };
+                return Op::Process(ctrl_request(own, s, iid, false, cmd, &data));
+            }
             Op::Process(match rng.below(4) {
                 0 => ctrl_request(own, s, iid, false, 0x06, &[rng.range(n as u64, 255) as u8]),
                 1 => ctrl_request(own, s, iid, false, 0x00, &[]),
